@@ -38,6 +38,7 @@ ASSUMPTIONS = [
     "sessions use expire_on_commit=False so that loaded state survives the op boundary; rollback expires everything (documented), after which the session reloads",
     "version schemes: default integer counter and a custom version_id_generator (string 'v<n>'); server-side generated versions (version_id_generator=False + triggers) are not covered",
     "SQLite only (supports_sane_rowcount=True, single-row UPDATE/DELETE per versioned object)",
+    "staleness is judged on the version value only: delete + re-insert restarts the counter, a row re-created at the same version number is accepted (ABA, inherent to version counters)",
     "the serial model in this file is trusted; assigning the value an attribute already has emits no UPDATE and therefore performs no version check (documented unit-of-work behaviour)",
 ]
 
@@ -132,6 +133,17 @@ def check_schedule(case, ctx):
             cache[si][rid] = db[rid]
             objs[si][rid] = o
 
+        def is_stale(si, rid):
+            """the contract is about VERSIONS: a delete + re-insert restarts the counter, so a row re-created by someone else at the
+            same version number is indistinguishable (ABA; inherent to counters, not checked as a defect)"""
+            if rid not in db:
+                return True
+            if db[rid][1] != cache[si][rid][1]:
+                return True
+            if db[rid] != cache[si][rid]:
+                classes.add("aba-reinsert-same-version")
+            return False
+
         def drop_all(si):
             cache[si].clear()
             objs[si].clear()
@@ -151,7 +163,7 @@ def check_schedule(case, ctx):
             if op in ("write", "write_rb", "delete", "write2"):
                 c = cache[si].get(rid)
                 if c is not None:
-                    if sum(1 for sj in range(len(seqs)) if cache[sj].get(rid) == c) >= 2 or db.get(rid) != c:
+                    if sum(1 for sj in range(len(seqs)) if cache[sj].get(rid) == c) >= 2 or rid not in db or db[rid][1] != c[1]:
                         nontrivial = True
                         classes.add("conflict" if db.get(rid) == c else "stale-attempt")
             if op == "load":
@@ -176,7 +188,7 @@ def check_schedule(case, ctx):
                     objs[si][t].val = newv
                     if newv != cache[si][t][0]:
                         changed.append((t, newv))
-                stale = [t for t, _ in changed if db.get(t) != cache[si][t]]
+                stale = [t for t, _ in changed if is_stale(si, t)]
                 try:
                     sess.flush()
                     got = None
@@ -214,7 +226,7 @@ def check_schedule(case, ctx):
                     classes.add("delete-on-missing-row")
                     continue
                 sess.delete(objs[si][rid])
-                stale = db.get(rid) != cache[si][rid]
+                stale = is_stale(si, rid)
                 try:
                     sess.flush()
                     got = None
